@@ -5,6 +5,7 @@ import (
 	"fmt"
 	"os"
 	"path/filepath"
+	"sort"
 	"strings"
 )
 
@@ -41,9 +42,20 @@ func ext(path string) string {
 }
 
 func findFile(path string) string {
+	exts := make([]string, 0, len(formatByExtension))
 	for ext := range formatByExtension {
+		exts = append(exts, ext)
+	}
+
+	sort.Strings(exts)
+
+	for _, ext := range exts {
 		extPath := fmt.Sprintf("%s.%s", path, ext)
-		if _, err := os.Stat(extPath); errors.Is(err, os.ErrNotExist) {
+
+		// Lstat: only the directory entry counts. Whether the target of a
+		// symlink exists (it may lie outside the root) must not decide
+		// which file is chosen.
+		if _, err := os.Lstat(extPath); errors.Is(err, os.ErrNotExist) {
 			continue
 		}
 
